@@ -550,7 +550,24 @@ class Acceptor(object):
             own = set(feat["tags"]) | (set(rule["tags"]) if rule is not None else set())
             if c is feat:
                 own = set(feat["tags"])
-            if not tagmatch and not W.eval_tagexpr(self.sel.tagexpr, own):
+            # 'never' only when NOTHING in the subtree satisfies the expression: not the container's
+            # own (effective) tags, no scenario, and no enclosed rule / outline by its own effective
+            # tags either (a rule whose tags match makes its feature a MAY although no scenario is selected)
+            inner = False
+            items = c["items"]
+            for it in items:
+                base = set(own)
+                if it["kind"] == "rule":
+                    if W.eval_tagexpr(self.sel.tagexpr, base | set(it["tags"])):
+                        inner = True
+                    for x in it["items"]:
+                        if x["kind"] == "outline" and W.eval_tagexpr(
+                                self.sel.tagexpr, base | set(it["tags"]) | set(t for t in x["tags"] if "<" not in t)):
+                            inner = True
+                elif it["kind"] == "outline":
+                    if W.eval_tagexpr(self.sel.tagexpr, base | set(t for t in it["tags"] if "<" not in t)):
+                        inner = True
+            if not tagmatch and not inner and not W.eval_tagexpr(self.sel.tagexpr, own):
                 return "never"
         return "may"
 
